@@ -374,7 +374,7 @@ def generate(rng, tier):
     # 1. templates x schedules
     for name, tree in templates():
         futs = futures_of(tree)
-        lim = (12 if len(futs) <= 2 else 6) if quick else (None if len(futs) <= 3 else 400)
+        lim = (16 if len(futs) <= 2 else 10) if quick else (None if len(futs) <= 3 else 1500)
         for ooo in (0, 1):
             scheds = schedules(futs, rng, lim)
             for s in scheds:
@@ -387,7 +387,7 @@ def generate(rng, tier):
                     yield item(ooo, rng.choice([0, 1]), tree, list(init), rand_schedule(rng, rest),
                                "tpl-init-" + ("ooo" if ooo else "io"))
     # 2. random trees
-    n = 2500 if quick else 40000
+    n = 9000 if quick else 160000
     for i in range(n):
         fam, allow = FAMILIES[rng.choice([0, 0, 0, 1, 1, 2, 3, 3])]
         lab = Lab(rng)
